@@ -191,18 +191,35 @@ def record_combo(job):
             st["planestress"] = 0
         # tangent by central finite differences from the same committed state
         Cm = np.asarray(Calg)[0, 0]
-        hfd = 1e-7
-        fd = np.zeros_like(Cm)
-        for j in range(ns):
-            ep, em = eps.copy(), eps.copy()
-            ep[j] += hfd
-            em[j] -= hfd
-            sp = np.asarray(law.Integrate(FeArray.asfearray(ep[None, None]), zin, withTangent=False)[0])[0, 0]
-            sm = np.asarray(law.Integrate(FeArray.asfearray(em[None, None]), zin, withTangent=False)[0])[0, 0]
-            fd[:, j] = (sp - sm) / (2 * hfd)
-        if np.abs(fd - Cm).max() > 2e-4 * np.abs(Cm).max():
+        # The returned stress carries the noise of the local solver (plane-stress iteration: ~1e-9 sigma_y), so the difference
+        # step must stay well above it; a step that straddles the elastic / plastic kink gives a meaningless quotient.  Several
+        # step sizes are tried, stencils with a neighbour on the other side of the switch are discarded, and the tangent is wrong
+        # only if none of the remaining quotients agrees with it.
+        errs = []
+        flowing = (p_new - p_old) > 1e-13
+        for hfd in (1e-5, 3e-6, 3e-5, 1e-6):
+            fd = np.zeros_like(Cm)
+            straddles = False
+            for j in range(ns):
+                ep, em = eps.copy(), eps.copy()
+                ep[j] += hfd
+                em[j] -= hfd
+                rp = law.Integrate(FeArray.asfearray(ep[None, None]), zin, withTangent=False)
+                rm = law.Integrate(FeArray.asfearray(em[None, None]), zin, withTangent=False)
+                for r_ in (rp, rm):  # a neighbour on the other side of the elastic / plastic switch: no derivative across the kink
+                    if ((np.asarray(r_[2])[0, 0][slots["p"]][0] - p_old) > 1e-13) != flowing:
+                        straddles = True
+                fd[:, j] = (np.asarray(rp[0])[0, 0] - np.asarray(rm[0])[0, 0]) / (2 * hfd)
+            if straddles:
+                continue
+            errs.append(float(np.abs(fd - Cm).max() / np.abs(Cm).max()))
+            if errs[-1] <= 2e-4:
+                break
+        if errs and min(errs) > 2e-4:
             st["tangent"] = 0
-            st["tangent_err"] = float(np.abs(fd - Cm).max() / np.abs(Cm).max())
+            st["tangent_err"] = min(errs)
+        if not errs:
+            st["tangent_skipped"] = 1  # every stencil straddles the yield switch
         s2 = np.asarray(laws["newton"].Integrate(E_, zin)[0])[0, 0]
         if np.abs(s2 - np.asarray(sig)[0, 0]).max() > 1e-7 * max(1.0, np.abs(s2).max()):
             st["solvers"] = 0
@@ -337,4 +354,4 @@ def run(ctx):
     ctx.pmap(commit_replay, list(enumerate(behs)))
     ctx.section("commit", behaviours=len(behs))
     ctx.cov["rule"] = "exhaustive uniaxial strain paths of Plasticity1D.tla replayed (3-D code, two local solvers, plane stress); random non-proportional traces per constitutive combination validated by TLC; commit-discipline behaviours replayed; distinct = (material, solver, sign pattern) + combinations"
-    ctx.assume("laws without closed form (Voce, Swift, Armstrong-Frederick, Hill, ...) are checked through the relations of the property only (signs, finite-difference tangent at 2e-4 relative)")
+    ctx.assume("laws without closed form (Voce, Swift, Armstrong-Frederick, Hill, ...) are checked through the relations of the property only (signs, finite-difference tangent at 2e-4 relative, central differences with steps 1e-5 / 3e-6 / 3e-5 - the stress carries the local solver's noise of about 1e-9)")
